@@ -76,18 +76,30 @@ class Check(object):
     def count(self, rule):
         return sum(1 for o in self.obls if o.rule == rule)
 
-    # -- finishing
-    def finish(self):
-        # floors
+    def floor_problem(self):
         for r, fl in self.floors.items():
             n = self.count(r)
             if n < fl:
-                raise AnalysisBroken('rule %s matched %d instances, below the floor %d confirmed on the baseline tree'
-                                     % (r, n, fl))
+                return 'rule %s matched %d instances, below the floor %d confirmed on the baseline tree' % (r, n, fl)
         for r in self.rules:
             if self.count(r) == 0:
-                raise AnalysisBroken('rule %s matched no instance (vacuous)' % r)
+                return 'rule %s matched no instance (vacuous)' % r
+        return None
+
+    # -- finishing
+    def finish(self):
         known = load_known().get(self.pid, {})
+        # floors: a rule that lost its instances makes a PASS meaningless (analysis broken); a violation that another rule has
+        # already named stands on its own and is reported
+        if not any((not o.ok) and o.key not in known for o in self.obls):
+            for r, fl in self.floors.items():
+                n = self.count(r)
+                if n < fl:
+                    raise AnalysisBroken('rule %s matched %d instances, below the floor %d confirmed on the baseline tree'
+                                         % (r, n, fl))
+            for r in self.rules:
+                if self.count(r) == 0:
+                    raise AnalysisBroken('rule %s matched no instance (vacuous)' % r)
         viols, knowns = [], []
         for o in self.obls:
             if o.ok:
